@@ -49,6 +49,9 @@ class C06(PropBase):
             params['stmin'] = rng.choice([1, 0x7F, 0xF2])
         if rng.random() < 0.3:
             params['tx_padding'] = 0xAA
+        if rng.random() < 0.15:
+            # a listener reports the same anomalies and recovers the same way; it just never emits a Flow Control (not even Overflow)
+            params['listen_mode'] = True
         ops = [{'op': 'layer', 'i': 0, 'addr': a, 'params': params}]
         pre = rx_prefix_bytes(a)
         fid, ext, _ = gen.rx_match_frame(a, b'')
@@ -236,7 +239,7 @@ class C06(PropBase):
             kind = meta['kind']
             if EXPECT[kind] not in inj_errs:
                 out.append(('class', 'anomaly %s at frame %d reported %s, documented class is %s' % (kind, meta['pos'], inj_errs, EXPECT[kind])))
-            if kind == 'too_long':
+            if kind == 'too_long' and not p.get('listen_mode'):
                 if not any(t['data'] == fcdata(2) for t in inj_tx):
                     out.append(('overflow_fc', 'FF_DL above max_frame_size not answered with Flow Control Overflow %s (got %s)' % (
                         fcdata(2).hex(), [t['data'].hex() for t in inj_tx])))
@@ -264,6 +267,8 @@ class C06(PropBase):
         if meta['f2'] > 1:
             ncf = meta['f2'] - 1
             nfc = 1 + (sum(1 for k in range(1, ncf) if k % bs == 0) if bs > 0 else 0)
+        if p.get('listen_mode'):
+            nfc = 0
         exp_fc = fcdata(0)
         if len(clean_tx) != nfc or any(t['data'] != exp_fc for t in clean_tx):
             # a reception in progress when the clean message starts may add nothing: FC count must still match
